@@ -1,4 +1,1026 @@
-//! `mwverif numtower ...` -- see DESIGN.md; implemented by the check of the corresponding property.
-pub fn main(_args: &[String]) -> Result<(), String> {
-    Err("numtower: not implemented yet".into())
+//! `mwverif numtower gen op-class=c08|c09|c16 seed=.. count=.. out=..`
+//! `mwverif numtower replay in=<ndjson> out=<ndjson>`
+//!
+//! Operation records for the numeric properties C08 (exact arithmetic), C09 (comparison)
+//! and C16 (number<->string), validated by spec/Trace_Num.tla.
+//!
+//! A *group* is an operation applied to mathematical argument values; its *runs* are the
+//! outcomes marwood produced when those values were carried by each combination of internal
+//! representations (fixnum / bignum / 32-bit rational / double), once with the `Number`
+//! variants injected directly into the evaluated `Cell` (route "inj") and once obtained by
+//! Scheme source text (route "src": literals, `(+ v (* 0 2^63))` for a small value carried as
+//! bignum, `(/ v 1)` for an integer-valued rational).  The harness never computes an expected
+//! result: `num` is used to draw operands and to encode numbers as sign + base-10^4 limbs.
+use crate::enc::{cps, parse_all};
+use crate::gen_cmd::{get, kv};
+use crate::rng::Rng;
+use crate::sess::{error_variant, Outcome, RunCfg, Sched, Session};
+use marwood::cell::Cell;
+use marwood::number::Number;
+use num::bigint::BigInt;
+use num::{One, Rational32, Signed, ToPrimitive, Zero};
+use serde_json::{json, Value};
+use std::io::Write;
+use std::panic::{catch_unwind, AssertUnwindSafe};
+use std::rc::Rc;
+
+// ----------------------------------------------------------------------------- values
+
+#[derive(Clone, Debug, PartialEq)]
+pub enum Val {
+    Int(BigInt),
+    /// reduced, denominator > 1
+    Rat(i32, i32),
+    /// bit pattern of a double
+    Flo(u64),
+}
+
+fn gcd_i64(a: i64, b: i64) -> i64 {
+    let (mut a, mut b) = (a.abs(), b.abs());
+    while b != 0 {
+        let t = a % b;
+        a = b;
+        b = t;
+    }
+    a
+}
+
+/// n/d (d != 0) as a value: reduced; an integer when the denominator divides.
+fn rat(n: i64, d: i64) -> Val {
+    let g = gcd_i64(n, d).max(1);
+    let (mut n, mut d) = (n / g, d / g);
+    if d < 0 {
+        n = -n;
+        d = -d;
+    }
+    if d == 1 || n < i32::MIN as i64 || n > i32::MAX as i64 || d > i32::MAX as i64 {
+        Val::Int(BigInt::from(n / d))
+    } else {
+        Val::Rat(n as i32, d as i32)
+    }
+}
+
+fn val_text(v: &Val) -> String {
+    match v {
+        Val::Int(i) => i.to_string(),
+        Val::Rat(n, d) => format!("{}/{}", n, d),
+        Val::Flo(b) => format!("{:?}", f64::from_bits(*b)),
+    }
+}
+
+/// decimal digits (no sign) -> little-endian base-10^4 limbs, normalised
+fn limbs_of_decimal(digits: &str) -> Vec<u32> {
+    let b = digits.as_bytes();
+    let mut out = vec![];
+    let mut end = b.len();
+    while end > 0 {
+        let start = end.saturating_sub(4);
+        let chunk = std::str::from_utf8(&b[start..end]).unwrap();
+        out.push(chunk.parse::<u32>().unwrap());
+        end = start;
+    }
+    while let Some(0) = out.last() {
+        out.pop();
+    }
+    out
+}
+
+fn enc_exact(num_dec: &str, den_dec: &str) -> Value {
+    let (neg, mag) = match num_dec.strip_prefix('-') {
+        Some(m) => (true, m),
+        None => (false, num_dec),
+    };
+    let n = limbs_of_decimal(mag);
+    let s = if n.is_empty() { 0 } else if neg { -1 } else { 1 };
+    json!({"k":"x","s":s,"n":n,"d":limbs_of_decimal(den_dec)})
+}
+
+fn enc_double(bits: u64) -> Value {
+    json!({"k":"f","w":[(bits >> 48) & 0xffff, (bits >> 32) & 0xffff, (bits >> 16) & 0xffff, bits & 0xffff]})
+}
+
+fn enc_val(v: &Val) -> Value {
+    match v {
+        Val::Int(i) => enc_exact(&i.to_string(), "1"),
+        Val::Rat(n, d) => enc_exact(&n.to_string(), &d.to_string()),
+        Val::Flo(b) => enc_double(*b),
+    }
+}
+
+fn rep_of(n: &Number) -> &'static str {
+    match n {
+        Number::Fixnum(_) => "fix",
+        Number::BigInt(_) => "big",
+        Number::Rational(_) => "rat",
+        Number::Float(_) => "flo",
+    }
+}
+
+/// a number produced by marwood, with the representation that carries it
+fn enc_number(n: &Number) -> Value {
+    let mut j = match n {
+        Number::Fixnum(i) => enc_exact(&i.to_string(), "1"),
+        Number::BigInt(b) => enc_exact(&b.to_string(), "1"),
+        Number::Rational(r) => {
+            let (mut a, mut b) = (*r.numer() as i64, *r.denom() as i64);
+            if b == 0 {
+                return json!({"k":"other","t":"rational with zero denominator"});
+            }
+            if b < 0 {
+                a = -a;
+                b = -b;
+            }
+            enc_exact(&a.to_string(), &b.to_string())
+        }
+        Number::Float(f) => enc_double(f.to_bits()),
+    };
+    j["rep"] = json!(rep_of(n));
+    j
+}
+
+fn reps_of(v: &Val) -> Vec<&'static str> {
+    match v {
+        Val::Int(i) => {
+            let mut r = vec![];
+            if i.to_i64().is_some() {
+                r.push("fix");
+            }
+            r.push("big");
+            if i.to_i32().is_some() {
+                r.push("rat");
+            }
+            r
+        }
+        Val::Rat(_, _) => vec!["rat"],
+        Val::Flo(_) => vec!["flo"],
+    }
+}
+
+fn number_of(v: &Val, rep: &str) -> Option<Number> {
+    match (v, rep) {
+        (Val::Int(i), "fix") => i.to_i64().map(Number::Fixnum),
+        (Val::Int(i), "big") => Some(Number::BigInt(Rc::new(i.clone()))),
+        (Val::Int(i), "rat") => i.to_i32().map(|x| Number::Rational(Rational32::new_raw(x, 1))),
+        (Val::Rat(n, d), "rat") => Some(Number::Rational(Rational32::new_raw(*n, *d))),
+        (Val::Flo(b), "flo") => Some(Number::Float(f64::from_bits(*b))),
+        _ => None,
+    }
+}
+
+/// same variant and same contents (doubles by bit pattern)
+fn same_number(a: &Number, b: &Number) -> bool {
+    match (a, b) {
+        (Number::Fixnum(x), Number::Fixnum(y)) => x == y,
+        (Number::BigInt(x), Number::BigInt(y)) => **x == **y,
+        (Number::Rational(x), Number::Rational(y)) => x.numer() == y.numer() && x.denom() == y.denom(),
+        (Number::Float(x), Number::Float(y)) => x.to_bits() == y.to_bits(),
+        _ => false,
+    }
+}
+
+/// Scheme source whose value is v carried by rep (checked by evaluation before use)
+fn source_of(v: &Val, rep: &str) -> Option<String> {
+    match (v, rep) {
+        (Val::Int(i), "fix") => Some(i.to_string()),
+        (Val::Int(i), "big") => {
+            if i.to_i64().is_some() {
+                Some(format!("(+ {} (* 0 9223372036854775808))", i))
+            } else {
+                Some(i.to_string())
+            }
+        }
+        (Val::Int(i), "rat") => Some(format!("(/ {} 1)", i)),
+        (Val::Rat(n, d), "rat") => Some(format!("{}/{}", n, d)),
+        (Val::Flo(b), "flo") => {
+            let f = f64::from_bits(*b);
+            if f.is_finite() {
+                Some(format!("{:?}", f))
+            } else {
+                None
+            }
+        }
+        _ => None,
+    }
+}
+
+// ----------------------------------------------------------------------------- evaluation
+
+pub struct Ev {
+    sess: Option<Session>,
+    cfg: RunCfg,
+    pub evals: usize,
+    pub src_unavailable: usize,
+}
+
+impl Ev {
+    pub fn new() -> Ev {
+        Ev { sess: None, cfg: RunCfg::plain(), evals: 0, src_unavailable: 0 }
+    }
+    fn eval(&mut self, c: &Cell) -> Outcome {
+        if self.sess.as_ref().map(|s| s.dead).unwrap_or(true) {
+            let mut s = Session::new(&self.cfg);
+            s.install_sched(&Sched::None);
+            self.sess = Some(s);
+        }
+        self.evals += 1;
+        let s = self.sess.as_mut().unwrap();
+        let (o, _) = s.eval(c, &self.cfg);
+        o
+    }
+    fn eval_text(&mut self, text: &str) -> Outcome {
+        let parsed = catch_unwind(AssertUnwindSafe(|| parse_all(text)));
+        match parsed {
+            Err(_) => Outcome::Panic("reader panicked".into()),
+            Ok(Err(e)) => Outcome::Err(marwood::error::Error::InvalidSyntax(format!("unreadable: {}", e))),
+            Ok(Ok(cells)) => {
+                if cells.len() != 1 {
+                    return Outcome::Err(marwood::error::Error::InvalidSyntax("not one datum".into()));
+                }
+                self.eval(&cells[0])
+            }
+        }
+    }
+    /// the source text yields exactly this number (variant and contents)?
+    fn source_ok(&mut self, text: &str, want: &Number) -> bool {
+        match self.eval_text(text) {
+            Outcome::Ok(Cell::Number(n)) => same_number(&n, want),
+            _ => false,
+        }
+    }
+}
+
+fn enc_outcome(o: &Outcome) -> Value {
+    match o {
+        Outcome::Ok(Cell::Number(n)) => enc_number(n),
+        Outcome::Ok(Cell::Bool(b)) => json!({"k":"b","v":b}),
+        Outcome::Ok(Cell::String(s)) => json!({"k":"s","v":cps(s)}),
+        Outcome::Ok(c) => json!({"k":"other","t":format!("{:#}", c)}),
+        Outcome::Err(e) => json!({"k":"err","e":error_variant(e)}),
+        Outcome::Panic(m) => json!({"k":"panic","msg":m}),
+        // the watchdog outcomes (instruction budget; any further kind a later harness adds)
+        _ => json!({"k":"timeout"}),
+    }
+}
+
+fn call_cell(op: &str, args: Vec<Cell>) -> Cell {
+    let mut v = vec![Cell::new_symbol(op)];
+    v.extend(args);
+    Cell::new_list(v)
+}
+
+fn call_text(op: &str, args: &[String]) -> String {
+    if args.is_empty() {
+        format!("({})", op)
+    } else {
+        format!("({} {})", op, args.join(" "))
+    }
+}
+
+// ----------------------------------------------------------------------------- groups
+
+pub struct Group {
+    pub cls: String,
+    pub op: String,
+    pub args: Vec<Val>,
+    /// radix (c16), 0 = procedure called without a radix argument
+    pub radix: u32,
+    /// (representation of each argument, route)
+    pub plans: Vec<(Vec<String>, String)>,
+}
+
+fn group_expr(g: &Group) -> String {
+    let a: Vec<String> = g.args.iter().map(val_text).collect();
+    if g.cls == "c16" {
+        if g.radix == 0 {
+            format!("(number->string {})", a[0])
+        } else {
+            format!("(number->string {} {})", a[0], g.radix)
+        }
+    } else {
+        call_text(&g.op, &a)
+    }
+}
+
+/// Evaluate every planned run of the group; None for a run whose source route is not available.
+fn run_group(ev: &mut Ev, id: usize, g: &Group) -> Value {
+    let mut runs = vec![];
+    for (reps, route) in &g.plans {
+        let nums: Vec<Number> = match g.args.iter().zip(reps.iter()).map(|(v, r)| number_of(v, r)).collect() {
+            Some(n) => n,
+            None => continue,
+        };
+        let srcs: Option<Vec<String>> = if route == "src" {
+            let s: Option<Vec<String>> = g.args.iter().zip(reps.iter()).map(|(v, r)| source_of(v, r)).collect();
+            match s {
+                Some(s) if s.iter().zip(nums.iter()).all(|(t, n)| ev.source_ok(t, n)) => Some(s),
+                _ => {
+                    ev.src_unavailable += 1;
+                    continue;
+                }
+            }
+        } else {
+            None
+        };
+        let mut run = json!({"reps": reps, "route": route});
+        if g.cls == "c16" {
+            let radix = if g.radix == 0 { 10 } else { g.radix };
+            // s = (number->string z r)
+            let o = match &srcs {
+                None => {
+                    let mut a = vec![Cell::Number(nums[0].clone())];
+                    if g.radix != 0 {
+                        a.push(Cell::Number(Number::Fixnum(radix as i64)));
+                    }
+                    ev.eval(&call_cell("number->string", a))
+                }
+                Some(s) => {
+                    let mut a = vec![s[0].clone()];
+                    if g.radix != 0 {
+                        a.push(radix.to_string());
+                    }
+                    ev.eval_text(&call_text("number->string", &a))
+                }
+            };
+            run["s"] = enc_outcome(&o);
+            if let Outcome::Ok(Cell::String(s)) = &o {
+                run["text"] = json!(s);
+                // z1 = (string->number s r)
+                let mut a = vec![Cell::String(s.clone())];
+                if g.radix != 0 {
+                    a.push(Cell::Number(Number::Fixnum(radix as i64)));
+                }
+                let z1 = ev.eval(&call_cell("string->number", a));
+                run["z1"] = enc_outcome(&z1);
+                // z2 = value of the literal with the radix prefix, read by the parser
+                let prefix = match radix {
+                    2 => "#b",
+                    8 => "#o",
+                    16 => "#x",
+                    _ => "#d",
+                };
+                let z2 = ev.eval_text(&format!("{}{}", prefix, s));
+                run["z2"] = enc_outcome(&z2);
+            } else {
+                run["z1"] = json!({"k":"none"});
+                run["z2"] = json!({"k":"none"});
+            }
+        } else {
+            let o = match &srcs {
+                None => ev.eval(&call_cell(&g.op, nums.iter().map(|n| Cell::Number(n.clone())).collect())),
+                Some(s) => ev.eval_text(&call_text(&g.op, s)),
+            };
+            run["res"] = enc_outcome(&o);
+            if let Some(s) = &srcs {
+                run["src"] = json!(call_text(&g.op, s));
+            }
+        }
+        runs.push(run);
+    }
+    json!({"id": id, "cls": g.cls, "op": g.op, "r": if g.radix == 0 { 10 } else { g.radix }, "radix_arg": g.radix != 0,
+           "args": g.args.iter().map(enc_val).collect::<Vec<_>>(),
+           "expr": group_expr(g), "runs": runs})
+}
+
+/// all combinations of representations (at most `cap`, chosen at random beyond that), each
+/// injected; a source-route twin for every combination with probability src/100.
+fn plan(rng: &mut Rng, args: &[Val], cap: usize, src: u32) -> Vec<(Vec<String>, String)> {
+    let mut combos: Vec<Vec<String>> = vec![vec![]];
+    for a in args {
+        let mut next = vec![];
+        for c in &combos {
+            for r in reps_of(a) {
+                let mut c2 = c.clone();
+                c2.push(r.to_string());
+                next.push(c2);
+            }
+        }
+        combos = next;
+    }
+    while combos.len() > cap {
+        let i = rng.below(combos.len());
+        combos.swap_remove(i);
+    }
+    let mut out = vec![];
+    for c in combos {
+        if rng.chance(src, 100) {
+            out.push((c.clone(), "src".to_string()));
+        }
+        out.push((c, "inj".to_string()));
+    }
+    out
+}
+
+// ----------------------------------------------------------------------------- palettes
+
+fn pow2(k: u32) -> BigInt {
+    BigInt::one() << k
+}
+
+fn rand_bits(rng: &mut Rng, bits: u32) -> BigInt {
+    let mut v = BigInt::zero();
+    let mut got = 0;
+    while got < bits {
+        v = (v << 64) + BigInt::from(rng.next());
+        got += 64;
+    }
+    let v = v & (pow2(bits) - 1);
+    // exactly `bits` bits
+    v | pow2(bits - 1)
+}
+
+fn sign(rng: &mut Rng, v: BigInt) -> BigInt {
+    if rng.chance(1, 2) {
+        -v
+    } else {
+        v
+    }
+}
+
+const BOUNDARY_EXP: [u32; 11] = [15, 16, 31, 31, 32, 53, 62, 63, 63, 64, 128];
+
+fn boundary_int(rng: &mut Rng) -> BigInt {
+    let base = match rng.below(14) {
+        0 => BigInt::from(46341),        // ceil(sqrt(2^31))
+        1 => BigInt::from(3037000500u64), // ceil(sqrt(2^63))
+        2 => BigInt::zero(),
+        _ => pow2(*rng.pick(&BOUNDARY_EXP)),
+    };
+    let d = rng.range(-2, 2);
+    sign(rng, base + d)
+}
+
+/// the representation boundaries themselves and the units
+fn hot_int(rng: &mut Rng) -> BigInt {
+    match rng.below(12) {
+        0 => BigInt::zero(),
+        1 => BigInt::one(),
+        2 | 3 => BigInt::from(-1),
+        4 => BigInt::from(*rng.pick(&[2i64, -2])),
+        5 => -pow2(31),
+        6 => sign(rng, pow2(31) - 1),
+        7 => -pow2(63),
+        8 => sign(rng, pow2(63) - 1),
+        9 => pow2(*rng.pick(&[31u32, 32, 63, 64])),
+        10 => -pow2(*rng.pick(&[32u32, 64])) + rng.range(-1, 1),
+        _ => BigInt::from(rng.range(-3, 3)),
+    }
+}
+
+pub fn draw_int(rng: &mut Rng) -> BigInt {
+    match rng.weighted(&[22, 33, 10, 35]) {
+        0 => hot_int(rng),
+        1 => boundary_int(rng),
+        2 => BigInt::from(rng.range(-20, 20)),
+        _ => {
+            let bits = *rng.pick(&[8u32, 16, 24, 31, 32, 33, 48, 63, 64, 65, 100, 128, 200, 256]);
+            let b = rand_bits(rng, bits);
+            sign(rng, b)
+        }
+    }
+}
+
+const RAT_COMP: [i64; 16] = [1, 2, 3, 5, 7, 10, 46340, 46341, 65535, 65536, 65537, 1 << 30, (1 << 31) - 3, (1 << 31) - 2, (1 << 31) - 1, 715827883];
+
+fn rat_comp(rng: &mut Rng) -> i64 {
+    if rng.chance(1, 2) {
+        *rng.pick(&RAT_COMP)
+    } else {
+        let bits = *rng.pick(&[3u32, 8, 15, 16, 17, 24, 30, 31]);
+        1 + (rng.next() % ((1u64 << bits) - 1)) as i64
+    }
+}
+
+pub fn draw_rat(rng: &mut Rng) -> Val {
+    let mut n = rat_comp(rng);
+    let d = rat_comp(rng);
+    if rng.chance(1, 40) {
+        n = 1 << 31; // numerator -2^31 (the most negative 32-bit value)
+        return rat(-n, d);
+    }
+    if rng.chance(1, 2) {
+        n = -n;
+    }
+    rat(n, d)
+}
+
+pub fn draw_exact(rng: &mut Rng) -> Val {
+    if rng.chance(3, 5) {
+        Val::Int(draw_int(rng))
+    } else {
+        draw_rat(rng)
+    }
+}
+
+fn as_int(v: &Val) -> Option<&BigInt> {
+    match v {
+        Val::Int(i) => Some(i),
+        _ => None,
+    }
+}
+
+/// an operand related to `a`: equal, negated, neighbour, complement to a boundary, multiple
+fn related(rng: &mut Rng, a: &Val) -> Val {
+    match a {
+        Val::Int(i) => match rng.below(7) {
+            0 => Val::Int(i.clone()),
+            1 => Val::Int(-i.clone()),
+            2 => Val::Int(i + rng.range(-2, 2)),
+            3 => Val::Int(boundary_int(rng) - i),
+            4 => Val::Int(i * BigInt::from(rng.range(-9, 9))),
+            5 => {
+                // divisor-like: a boundary divided by i
+                if i.is_zero() {
+                    Val::Int(BigInt::one())
+                } else {
+                    Val::Int(boundary_int(rng) / i + rng.range(-1, 1))
+                }
+            }
+            _ => match i.to_i32() {
+                Some(x) if x != 0 => rat(rat_comp(rng), x as i64),
+                _ => Val::Int(i.clone() + 1),
+            },
+        },
+        Val::Rat(n, d) => match rng.below(6) {
+            0 => Val::Rat(*n, *d),
+            1 => rat(-(*n as i64), *d as i64),
+            2 => rat(*d as i64, *n as i64),
+            3 => rat(rat_comp(rng), *d as i64),
+            4 => rat(*n as i64, rat_comp(rng)),
+            _ => Val::Int(BigInt::from(*d)),
+        },
+        Val::Flo(b) => Val::Flo(*b),
+    }
+}
+
+// doubles ---------------------------------------------------------------------------------
+
+const DOUBLE_BITS: [u64; 30] = [
+    0x0000000000000000, // 0.0
+    0x8000000000000000, // -0.0
+    0x0000000000000001, // least subnormal
+    0x8000000000000001,
+    0x000fffffffffffff, // greatest subnormal
+    0x0010000000000000, // least normal
+    0x3ff0000000000000, // 1.0
+    0xbff0000000000000, // -1.0
+    0x3fe0000000000000, // 0.5
+    0x3fb999999999999a, // 0.1
+    0x3fd5555555555555, // 1/3
+    0x41dfffffffc00000, // 2^31 - 1
+    0x41e0000000000000, // 2^31
+    0x41e0000000100000, // 2^31 + 0.5
+    0xc1e0000000000000, // -2^31
+    0x433fffffffffffff, // 2^53 - 1
+    0x4340000000000000, // 2^53
+    0x4340000000000001, // 2^53 + 2
+    0xc340000000000000, // -2^53
+    0x43dfffffffffffff, // 2^63 - 1024
+    0x43e0000000000000, // 2^63
+    0x43e0000000000001, // 2^63 + 2048
+    0xc3e0000000000000, // -2^63
+    0x43f0000000000000, // 2^64
+    0x7fe1ccf385ebc8a0, // 1e308
+    0x7fefffffffffffff, // greatest finite
+    0xffefffffffffffff,
+    0x7ff0000000000000, // +inf
+    0xfff0000000000000, // -inf
+    0x3ff0000000000001, // 1 + ulp
+];
+
+/// the double nearest to an exact value as Rust computes it (an input, not an oracle: any double will do)
+fn approx_double(v: &Val) -> f64 {
+    match v {
+        Val::Int(i) => i.to_f64().unwrap_or(f64::INFINITY),
+        Val::Rat(n, d) => *n as f64 / *d as f64,
+        Val::Flo(b) => f64::from_bits(*b),
+    }
+}
+
+fn neighbour(rng: &mut Rng, f: f64) -> u64 {
+    let b = f.to_bits();
+    let mag = b & 0x7fffffffffffffff;
+    let d = rng.range(-2, 2);
+    let m2 = (mag as i64 + d).clamp(0, 0x7ff0000000000000) as u64;
+    (b & 0x8000000000000000) | m2
+}
+
+fn draw_double_finite(rng: &mut Rng, any_bits: bool) -> u64 {
+    loop {
+        let b = match rng.weighted(&[30, 30, if any_bits { 40 } else { 5 }]) {
+            0 => *rng.pick(&DOUBLE_BITS),
+            1 => {
+                let v = draw_exact(rng);
+                neighbour(rng, approx_double(&v))
+            }
+            _ => rng.next(),
+        };
+        if f64::from_bits(b).is_finite() {
+            return b;
+        }
+    }
+}
+
+/// C09 operand: exact palette, or a double (no NaN)
+fn draw_ordered(rng: &mut Rng) -> Val {
+    match rng.weighted(&[55, 20, 20, 5]) {
+        0 => draw_exact(rng),
+        1 => Val::Flo(*rng.pick(&DOUBLE_BITS)),
+        2 => {
+            let v = draw_exact(rng);
+            let f = approx_double(&v);
+            let b = neighbour(rng, f);
+            if f64::from_bits(b).is_nan() {
+                Val::Flo(f.to_bits())
+            } else {
+                Val::Flo(b)
+            }
+        }
+        _ => Val::Flo(draw_double_finite(rng, true)),
+    }
+}
+
+/// a value close to (or equal to) `a` in the mathematical order, possibly of another kind
+fn near(rng: &mut Rng, a: &Val) -> Val {
+    match rng.below(6) {
+        0 => a.clone(),
+        1 | 2 => {
+            let f = approx_double(a);
+            let b = neighbour(rng, f);
+            if f64::from_bits(b).is_nan() {
+                a.clone()
+            } else {
+                Val::Flo(b)
+            }
+        }
+        3 => match a {
+            Val::Flo(b) => {
+                // the exact integer part of the double (when it is an integer-sized value)
+                let f = f64::from_bits(*b);
+                if f.is_finite() && f.abs() < 1e300 {
+                    match num::BigInt::from_f64_lossy(f.trunc()) {
+                        Some(i) => Val::Int(i + rng.range(-1, 1)),
+                        None => a.clone(),
+                    }
+                } else {
+                    a.clone()
+                }
+            }
+            other => related(rng, other),
+        },
+        4 => match a {
+            Val::Int(i) => match i.to_i32() {
+                Some(x) if (x as i64).abs() < (1 << 30) => rat(2 * x as i64 + 1, 2),
+                _ => Val::Int(i + rng.range(-1, 1)),
+            },
+            Val::Rat(n, d) => rat(*n as i64 + rng.range(-1, 1), *d as i64),
+            Val::Flo(_) => a.clone(),
+        },
+        _ => match a {
+            Val::Int(i) => Val::Int(i + rng.range(-2, 2)),
+            Val::Rat(n, d) => Val::Int(BigInt::from(*n as i64 / *d as i64 + rng.range(0, 1))),
+            Val::Flo(_) => a.clone(),
+        },
+    }
+}
+
+trait FromF64Lossy {
+    fn from_f64_lossy(f: f64) -> Option<BigInt>;
+}
+impl FromF64Lossy for BigInt {
+    /// exact integer value of an integral finite double, from its bit pattern
+    fn from_f64_lossy(f: f64) -> Option<BigInt> {
+        if !f.is_finite() {
+            return None;
+        }
+        let b = f.to_bits();
+        let e = ((b >> 52) & 0x7ff) as i64;
+        let frac = b & 0x000fffffffffffff;
+        let (m, e) = if e == 0 { (frac, -1074) } else { (frac | (1 << 52), e - 1075) };
+        let mut v = BigInt::from(m);
+        if e >= 0 {
+            v <<= e as usize;
+        } else {
+            v >>= (-e) as usize;
+        }
+        Some(if b >> 63 == 1 { -v } else { v })
+    }
+}
+
+// ----------------------------------------------------------------------------- generators
+
+fn bits_of(v: &Val) -> u64 {
+    match v {
+        Val::Int(i) => i.bits(),
+        Val::Rat(n, d) => 32.max(64 - (*n as i64).abs().leading_zeros() as u64).max(64 - (*d as i64).leading_zeros() as u64),
+        Val::Flo(_) => 64,
+    }
+}
+
+fn gen_c08(rng: &mut Rng) -> Group {
+    let kind = rng.weighted(&[46, 8, 3, 14, 10, 19]);
+    let (op, args): (&str, Vec<Val>) = match kind {
+        0 => {
+            let op = *rng.pick(&["+", "-", "*", "/", "+", "-", "*", "/", "/"]);
+            let a = draw_exact(rng);
+            let b = if rng.chance(2, 5) { related(rng, &a) } else { draw_exact(rng) };
+            if rng.chance(1, 2) {
+                (op, vec![a, b])
+            } else {
+                (op, vec![b, a])
+            }
+        }
+        1 => {
+            let op = *rng.pick(&["+", "*", "+", "*", "-"]);
+            let a = draw_exact(rng);
+            let b = if rng.chance(1, 2) { related(rng, &a) } else { draw_exact(rng) };
+            let c = if rng.chance(1, 2) { related(rng, &b) } else { draw_exact(rng) };
+            (op, vec![a, b, c])
+        }
+        2 => {
+            let op = *rng.pick(&["+", "*", "-", "/"]);
+            if (op == "+" || op == "*") && rng.chance(1, 4) {
+                (op, vec![])
+            } else {
+                (op, vec![draw_exact(rng)])
+            }
+        }
+        3 => {
+            let op = *rng.pick(&["abs", "floor", "ceiling", "truncate", "numerator", "denominator"]);
+            let a = if rng.chance(1, 2) { draw_rat(rng) } else { draw_exact(rng) };
+            (op, vec![a])
+        }
+        4 => {
+            let base = match rng.below(4) {
+                0 => Val::Int(BigInt::from(rng.range(-12, 12))),
+                1 => rat(rng.range(-9, 9), rng.range(1, 9)),
+                _ => draw_exact(rng),
+            };
+            let mut k = match rng.below(3) {
+                0 => *rng.pick(&[0i64, 1, 2, 3, 10, 15, 16, 30, 31, 32, 33, 40, 62, 63, 64, 65]),
+                _ => rng.range(0, 70),
+            };
+            // results are capped at 2048 bits; beyond the cap the exponent is drawn anew below it
+            let b = bits_of(&base).max(1) as i64;
+            if b * k > 2048 {
+                k = rng.range(0, 2048 / b);
+            }
+            ("expt", vec![base, Val::Int(BigInt::from(k))])
+        }
+        _ => {
+            let op = *rng.pick(&["quotient", "remainder", "modulo"]);
+            let a = Val::Int(draw_int(rng));
+            let b = match rng.below(10) {
+                0 => Val::Int(BigInt::from(*rng.pick(&[1i64, -1, -1, 2, -2]))),
+                1 | 2 | 3 => {
+                    let mut r = related(rng, &a);
+                    if as_int(&r).is_none() {
+                        r = Val::Int(draw_int(rng));
+                    }
+                    r
+                }
+                _ => Val::Int(draw_int(rng)),
+            };
+            if rng.chance(1, 2) {
+                (op, vec![a, b])
+            } else {
+                (op, vec![b, a])
+            }
+        }
+    };
+    let plans = plan(rng, &args, 9, 35);
+    Group { cls: "c08".into(), op: op.into(), args, radix: 0, plans }
+}
+
+fn gen_c09(rng: &mut Rng, pending: &mut Vec<Group>) -> Group {
+    if let Some(g) = pending.pop() {
+        return g;
+    }
+    let kind = rng.weighted(&[55, 22, 10, 10, 3]);
+    match kind {
+        0 => {
+            // a pair under `=` and two of the four order relations
+            let a = draw_ordered(rng);
+            let b = if rng.chance(1, 2) { near(rng, &a) } else { draw_ordered(rng) };
+            let args = if rng.chance(1, 2) { vec![a, b] } else { vec![b, a] };
+            let mut ops = vec!["<", ">", "<=", ">="];
+            let i = rng.below(ops.len());
+            ops.swap_remove(i);
+            let i = rng.below(ops.len());
+            ops.swap_remove(i);
+            for op in ops {
+                let plans = plan(rng, &args, 4, 25);
+                pending.push(Group { cls: "c09".into(), op: op.into(), args: args.clone(), radix: 0, plans });
+            }
+            let plans = plan(rng, &args, 4, 25);
+            Group { cls: "c09".into(), op: "=".into(), args, radix: 0, plans }
+        }
+        1 => {
+            // a triple of neighbouring values (transitivity, variadic = conjunction of adjacent pairs)
+            let a = draw_ordered(rng);
+            let b = if rng.chance(3, 4) { near(rng, &a) } else { draw_ordered(rng) };
+            let pick_a = rng.chance(1, 2);
+            let c = if rng.chance(3, 4) { near(rng, if pick_a { &a } else { &b }) } else { draw_ordered(rng) };
+            let mut args = vec![a, b, c];
+            if rng.chance(1, 6) {
+                args.push(near(rng, &args[2].clone()));
+            }
+            let op = *rng.pick(&["<", "=", ">", "<=", ">=", "=", "<="]);
+            // the pairwise comparisons of the same triple
+            for (i, j) in [(0, 1), (1, 2), (0, 2)] {
+                let pa = vec![args[i].clone(), args[j].clone()];
+                let plans = plan(rng, &pa, 2, 0);
+                pending.push(Group { cls: "c09".into(), op: op.into(), args: pa, radix: 0, plans });
+            }
+            let plans = plan(rng, &args, 4, 25);
+            Group { cls: "c09".into(), op: op.into(), args, radix: 0, plans }
+        }
+        2 => {
+            let op = *rng.pick(&["min", "max"]);
+            let a = draw_ordered(rng);
+            let b = if rng.chance(1, 2) { near(rng, &a) } else { draw_ordered(rng) };
+            let mut args = vec![a, b];
+            if rng.chance(1, 3) {
+                args.push(near(rng, &args[0].clone()));
+            }
+            let plans = plan(rng, &args, 4, 25);
+            Group { cls: "c09".into(), op: op.into(), args, radix: 0, plans }
+        }
+        3 => {
+            let op = *rng.pick(&["zero?", "positive?", "negative?"]);
+            let a = if rng.chance(1, 4) {
+                rng.pick(&[Val::Int(BigInt::zero()), Val::Flo(0), Val::Flo(1 << 63), Val::Flo(1), Val::Flo((1 << 63) | 1)]).clone()
+            } else {
+                draw_ordered(rng)
+            };
+            let args = vec![a];
+            let plans = plan(rng, &args, 4, 25);
+            Group { cls: "c09".into(), op: op.into(), args, radix: 0, plans }
+        }
+        _ => {
+            let op = *rng.pick(&["<", "=", ">", "<=", ">="]);
+            let args = vec![draw_ordered(rng)];
+            let plans = plan(rng, &args, 3, 25);
+            Group { cls: "c09".into(), op: op.into(), args, radix: 0, plans }
+        }
+    }
+}
+
+const NICE_DOUBLES: [f64; 24] = [
+    0.1, 0.2, 0.3, 1.5, -2.5, 3.14159, 100.0, 1e10, 1.0e10 + 1.0, 1e11, 1.5e11, 1e21, 1e22, 1e23, 123456.789, 1e-7, 1.5e-10,
+    6.02214076e23, 1.7976931348623157e308, 2.2250738585072014e-308, 5e-324, 4.9406564584124654e-320, -1e15, 9007199254740993.0,
+];
+
+fn gen_c16(rng: &mut Rng, pending: &mut Vec<Group>) -> Group {
+    if let Some(g) = pending.pop() {
+        return g;
+    }
+    if rng.chance(11, 20) {
+        // finite double, radix 10
+        let b = if rng.chance(1, 6) {
+            let f = *rng.pick(&NICE_DOUBLES);
+            (if rng.chance(1, 4) { -f } else { f }).to_bits()
+        } else {
+            draw_double_finite(rng, true)
+        };
+        let args = vec![Val::Flo(b)];
+        let plans = plan(rng, &args, 1, 30);
+        let radix = if rng.chance(1, 3) { 0 } else { 10 };
+        return Group { cls: "c16".into(), op: "number->string".into(), args, radix, plans };
+    }
+    let z = draw_exact(rng);
+    let args = vec![z];
+    let mut radices = vec![2u32, 8, 10, 16, 0];
+    while radices.len() > 3 {
+        let i = rng.below(radices.len());
+        radices.swap_remove(i);
+    }
+    let first = radices.pop().unwrap();
+    for r in radices {
+        let plans = plan(rng, &args, 3, 30);
+        pending.push(Group { cls: "c16".into(), op: "number->string".into(), args: args.clone(), radix: r, plans });
+    }
+    let plans = plan(rng, &args, 3, 30);
+    Group { cls: "c16".into(), op: "number->string".into(), args, radix: first, plans }
+}
+
+// ----------------------------------------------------------------------------- replay decoding
+
+fn decimal_of_limbs(l: &Value) -> String {
+    let limbs: Vec<u64> = l.as_array().map(|a| a.iter().map(|x| x.as_u64().unwrap_or(0)).collect()).unwrap_or_default();
+    if limbs.is_empty() {
+        return "0".into();
+    }
+    let mut s = String::new();
+    for (i, x) in limbs.iter().rev().enumerate() {
+        if i == 0 {
+            s.push_str(&x.to_string());
+        } else {
+            s.push_str(&format!("{:04}", x));
+        }
+    }
+    s
+}
+
+fn val_of_json(j: &Value) -> Result<Val, String> {
+    match j["k"].as_str() {
+        Some("x") => {
+            let n: BigInt = decimal_of_limbs(&j["n"]).parse().map_err(|_| "bad limbs")?;
+            let d: BigInt = decimal_of_limbs(&j["d"]).parse().map_err(|_| "bad limbs")?;
+            let n = if j["s"].as_i64() == Some(-1) { -n } else { n };
+            if d.is_one() {
+                Ok(Val::Int(n))
+            } else {
+                Ok(Val::Rat(n.to_i32().ok_or("numerator")?, d.to_i32().ok_or("denominator")?))
+            }
+        }
+        Some("f") => {
+            let w: Vec<u64> = j["w"].as_array().ok_or("w")?.iter().map(|x| x.as_u64().unwrap_or(0)).collect();
+            Ok(Val::Flo((w[0] << 48) | (w[1] << 32) | (w[2] << 16) | w[3]))
+        }
+        _ => Err("unknown value kind".into()),
+    }
+}
+
+fn group_of_json(j: &Value) -> Result<Group, String> {
+    let args: Result<Vec<Val>, String> = j["args"].as_array().ok_or("args")?.iter().map(val_of_json).collect();
+    let mut plans = vec![];
+    for r in j["runs"].as_array().ok_or("runs")? {
+        let reps: Vec<String> = r["reps"].as_array().ok_or("reps")?.iter().map(|x| x.as_str().unwrap_or("").to_string()).collect();
+        plans.push((reps, r["route"].as_str().unwrap_or("inj").to_string()));
+    }
+    let radix = if j["radix_arg"].as_bool() == Some(false) { 0 } else { j["r"].as_u64().unwrap_or(10) as u32 };
+    Ok(Group {
+        cls: j["cls"].as_str().ok_or("cls")?.to_string(),
+        op: j["op"].as_str().ok_or("op")?.to_string(),
+        args: args?,
+        radix: if j["cls"] == "c16" { radix } else { 0 },
+        plans,
+    })
+}
+
+// ----------------------------------------------------------------------------- main
+
+pub fn main(args: &[String]) -> Result<(), String> {
+    if args.is_empty() {
+        return Err("numtower gen|replay key=value...".into());
+    }
+    let m = kv(&args[1..]);
+    let out = m.get("out").cloned().ok_or("out=<file> required")?;
+    let mut f = std::io::BufWriter::new(std::fs::File::create(&out).map_err(|e| e.to_string())?);
+    let mut ev = Ev::new();
+    // the premise of route "inj": evaluating a number cell keeps the variant it is given
+    for (v, rep) in [(Val::Int(BigInt::from(5)), "big"), (Val::Int(BigInt::from(3)), "rat"), (Val::Int(BigInt::from(7)), "fix")] {
+        let n = number_of(&v, rep).unwrap();
+        match ev.eval(&Cell::Number(n.clone())) {
+            Outcome::Ok(Cell::Number(r)) if same_number(&r, &n) => {}
+            _ => return Err(format!("evaluating a {} number cell does not keep its representation", rep)),
+        }
+    }
+    match args[0].as_str() {
+        "gen" => {
+            let cls = m.get("op-class").cloned().ok_or("op-class=c08|c09|c16 required")?;
+            let seed: u64 = get(&m, "seed", 0);
+            let count: usize = get(&m, "count", 1000);
+            let mut rng = Rng::new(seed.wrapping_mul(7919).wrapping_add(match cls.as_str() {
+                "c08" => 8,
+                "c09" => 9,
+                _ => 16,
+            }));
+            let mut pending: Vec<Group> = vec![];
+            let mut nruns = 0;
+            let mut id = 0;
+            while nruns < count {
+                let g = match cls.as_str() {
+                    "c08" => gen_c08(&mut rng),
+                    "c09" => gen_c09(&mut rng, &mut pending),
+                    "c16" => gen_c16(&mut rng, &mut pending),
+                    other => return Err(format!("unknown op-class {}", other)),
+                };
+                id += 1;
+                let j = run_group(&mut ev, id, &g);
+                let n = j["runs"].as_array().map(|a| a.len()).unwrap_or(0);
+                if n == 0 {
+                    id -= 1;
+                    continue;
+                }
+                nruns += n;
+                writeln!(f, "{}", j).map_err(|e| e.to_string())?;
+            }
+            eprintln!("numtower gen {}: {} groups, {} runs, {} evaluations, {} source routes unavailable",
+                      cls, id, nruns, ev.evals, ev.src_unavailable);
+            Ok(())
+        }
+        "replay" => {
+            let input = m.get("in").cloned().ok_or("in=<file> required")?;
+            let text = std::fs::read_to_string(&input).map_err(|e| e.to_string())?;
+            for line in text.lines().filter(|l| !l.trim().is_empty()) {
+                let j: Value = serde_json::from_str(line).map_err(|e| e.to_string())?;
+                let g = group_of_json(&j)?;
+                let id = j["id"].as_u64().unwrap_or(0) as usize;
+                writeln!(f, "{}", run_group(&mut ev, id, &g)).map_err(|e| e.to_string())?;
+            }
+            Ok(())
+        }
+        other => Err(format!("unknown numtower command {}", other)),
+    }
 }
